@@ -37,6 +37,7 @@ def run(ctx: Ctx):
     check_accumulate(ctx, ic)
     c03.check_mark_operands(ctx)
     ctx.section(check_output_never_scratch, ctx)
+    ctx.section(c02.check_expqmap, ctx)
 
 
 def check_fresh_output(ctx: Ctx, ic):
